@@ -26,8 +26,8 @@ EXTENDS PLang, Json, IOUtils
 
 Entries == JsonDeserialize(IOEnv.PROGS)
 
-VARIABLES pid, co, cm, l, refused
-vars == <<pid, co, cm, l, refused>>
+VARIABLES pid, co, cm, l, refused, pre
+vars == <<pid, co, cm, l, refused, pre>>
 
 P == Entries[pid].prog
 N == NTasks(P)
@@ -68,13 +68,24 @@ Absent == [st |-> "absent", pc |-> 1, recvs |-> <<>>, out |-> VNone, ctx |-> 0, 
 Init == /\ pid \in 1..Len(Entries)
         /\ co = [t \in 1..Len(Entries[pid].prog.tasks) |-> Absent]
         /\ cm = [c \in 0..Len(Entries[pid].prog.tasks) |-> FALSE]
-        /\ l = 1 /\ refused = TRUE
+        /\ l = 1 /\ refused = TRUE /\ pre = "unset"
 
 Follows(evs) == IF Traced THEN l + Len(evs) - 1 <= Len(Trace) /\ \A i \in 1..Len(evs) : Trace[l + i - 1] = evs[i]
                 ELSE TRUE
 Advance(evs) == l' = IF Traced THEN l + Len(evs) ELSE l
 
-Start == /\ co[Root].st = "absent" /\ ~cm[0]
+(* What asynq-mode code did on this thread BEFORE the asyncio run with a function the computation reaches through a
+   wrapper that keeps a registry of tasks (tools.deduplicate): nothing; created a task for the same function and
+   arguments that never ran (it stays registered); ran one to completion; created one for other arguments.
+   Engine B has no such registry: inside the asyncio run child.asynq(...) is a coroutine of that child, so all four
+   histories lead to the same Start and the prescribed outcome is the same after each of them. *)
+PreKinds == {"none", "created", "computed", "other"}
+Before(kind) == /\ pre = "unset" /\ co[Root].st = "absent"
+                /\ pre' = kind
+                /\ UNCHANGED <<pid, co, cm, l, refused>>
+
+Start == /\ co[Root].st = "absent" /\ ~cm[0] /\ pre \in PreKinds
+         /\ pre' = "gone"
          /\ co' = [co EXCEPT ![Root] = [Absent EXCEPT !.st = "ready", !.tok = cm[0]]]
          /\ cm' = [cm EXCEPT ![0] = TRUE]
          /\ UNCHANGED <<pid, l, refused>>
@@ -107,7 +118,7 @@ RunSeg(t, k, rv) ==
 
 Step(t) ==
   /\ Runnable(t)
-  /\ UNCHANGED pid
+  /\ UNCHANGED <<pid, pre>>
   /\ IF co[t].st = "ready" THEN RunSeg(t, co[t].pc, co[t].recvs)
      ELSE LET k == co[t].pc
               r == Gather(Seg(t, k).term.s, [u \in 1..N |-> co[u].out])
@@ -115,7 +126,7 @@ Step(t) ==
              THEN Leave(t, r, <<<<t, 0>>>>) /\ UNCHANGED refused
              ELSE RunSeg(t, k + 1, Append(co[t].recvs, IF IsX(r) THEN Val("caught", r.n, <<>>) ELSE r))
 
-Next == (Start /\ Fragment) \/ \E t \in 1..N : Step(t)
+Next == (\E kind \in PreKinds : Before(kind)) \/ (Start /\ Fragment) \/ \E t \in 1..N : Step(t)
 Spec == Init /\ [][Next]_vars
 
 (* ---- the property, on the model ---- *)
@@ -134,5 +145,5 @@ InFragment == Fragment
 Export == (Done /\ (Traced => l = Len(Trace) + 1)) =>
              PrintT(ToJson([pid |-> pid, out |-> co[Root].out, ref |-> TaskOut(P, Root),
                             mode_after |-> IF cm[0] THEN 1 ELSE 0, refused |-> IF refused THEN 1 ELSE 0,
-                            traced |-> IF Traced THEN 1 ELSE 0]))
+                            traced |-> IF Traced THEN 1 ELSE 0, pres |-> PreKinds]))
 =============================================================================
